@@ -165,19 +165,23 @@ def main(argv=None):
             for e, f in kfuts:
                 r = f.result()
                 res = r['result']
-                if res is not None and e['key'] in res['violations']:
+                import fnmatch as _fn
+                if res is not None and any(k == e['key'] or _fn.fnmatchcase(k, e['key']) for k in res['violations']):
                     reproduced[e['key']] = e
 
         m = merge(results)
         # ---- classify violations ------------------------------------------
         new = {}
         known_hits = {}
+        import fnmatch
         for k, v in m['violations'].items():
-            if k in known_keys:
-                known_hits[k] = v['count']
+            # a known key may use * wildcards for the parts that are not the mechanism (e.g. operand classes)
+            pat = next((kk for kk in sorted(known_keys) if kk == k or fnmatch.fnmatchcase(k, kk)), None)
+            if pat is not None:
+                known_hits[pat] = known_hits.get(pat, 0) + v['count']
                 for e in known:
-                    if e['key'] == k and e.get('status') == 'known':
-                        reproduced.setdefault(k, e)
+                    if e['key'] == pat and e.get('status') == 'known':
+                        reproduced.setdefault(pat, e)
             else:
                 new[k] = v
         for k, e in sorted(reproduced.items()):
